@@ -167,7 +167,12 @@ def explore(inst, seed, tier):
 
 
 def run_check(prop, tier, seed):
-    from harness import replay  # imports jax + the library under test from /repo
+    try:
+        from harness import replay  # imports jax + the library under test from /repo
+    except Exception as e:   # the library under test does not import: nothing can be checked
+        print(f"MACHINERY-ERROR property={prop} cannot import gaussian_toolbox from {os.environ.get('VERIF_REPO', '/repo')}: "
+              f"{type(e).__name__}: {e}")
+        return 2
     spec = PROPS[prop]
     if spec.get("runner") == "c18":
         from harness import c18
